@@ -231,6 +231,176 @@ theorem locate_pathStrs (roots : List Node) (onEntity : Bool) (segs : List SegSp
         exact locateAt_restStrs onEntity rest n node ks s (findSub_name _ _ _ hf) hc' hnode hl
       · cases hnode
 
+/-! ## bytes and the routing model's strings -/
+
+/-- the character a byte stands for in the routing model's strings -/
+def ch (c : UInt8) : Char := Char.ofNat c.toNat
+
+theorem strOf_toList (b : Bytes) : (strOf b).toList = b.map ch := by
+  simp [strOf, ch]
+
+theorem ch_toNat : ∀ c : UInt8, UInt8.ofNat (ch c).toNat = c := by
+  intro c
+  have := Url.byte_forall (fun c => UInt8.ofNat (ch c).toNat == c) (by decide +kernel) c
+  simpa using this
+
+theorem bytesOf_strOf (b : Bytes) : bytesOf (strOf b) = b := by
+  simp only [bytesOf, strOf_toList, List.map_map]
+  induction b with
+  | nil => rfl
+  | cons c cs ih => simp only [List.map_cons, Function.comp, ch_toNat, ih]
+
+theorem ch_slash : ∀ c : UInt8, (ch c == '/') = (c == 47) := by
+  intro c
+  have := Url.byte_forall (fun c => (ch c == '/') == (c == 47)) (by decide +kernel) c
+  simpa using this
+
+theorem noSlash_strOf (b : Bytes) (h : ∀ c ∈ b, c ≠ 47) : Routing.noSlash (strOf b) = true := by
+  simp only [Routing.noSlash, strOf_toList, Bool.not_eq_eq_eq_not, Bool.not_true]
+  induction b with
+  | nil => rfl
+  | cons c cs ih =>
+    have hc : (c == 47) = false := beq_eq_false_iff_ne.mpr (h c (List.mem_cons_self ..))
+    have hne : ch c ≠ '/' := by
+      intro e
+      have h2 := ch_slash c
+      rw [hc, e] at h2
+      exact absurd h2 (by decide)
+    have hc' : ('/' == ch c) = false := beq_eq_false_iff_ne.mpr (Ne.symm hne)
+    simp only [List.map_cons, List.contains_cons, hc', Bool.false_or]
+    exact ih (fun d hd => h d (List.mem_cons_of_mem _ hd))
+
+theorem strOf_append (a b : Bytes) : strOf (a ++ b) = strOf a ++ strOf b := by
+  apply String.ext
+  simp [strOf_toList]
+
+/-- the characters of a resource path are `/` followed by its segments joined with `/` -/
+theorem joinPath_chars : ∀ (segs : List Bytes), segs ≠ [] →
+    (joinPath segs).map ch = '/' :: Routing.joinSlash (segs.map strOf)
+  | [], h => absurd rfl h
+  | [s], _ => by simp [joinPath, Routing.joinSlash, strOf_toList, ch]
+  | s :: s2 :: rest, _ => by
+    have ih := joinPath_chars (s2 :: rest) (by simp)
+    have : joinPath (s :: s2 :: rest) = 47 :: s ++ joinPath (s2 :: rest) := by simp [joinPath]
+    rw [this, List.map_append, ih]
+    simp [Routing.joinSlash, strOf_toList, ch]
+
+/-- `strings.Split` of the request path below the prefix gives the path's segments -/
+theorem split_joinPath (segs : List Bytes) (hne : segs ≠ []) (hs : ∀ s ∈ segs, ∀ c ∈ s, c ≠ 47) :
+    ∃ rest, (joinPath segs).map ch = '/' :: rest ∧
+      (Routing.splitSlash rest).map String.ofList = segs.map strOf := by
+  refine ⟨_, joinPath_chars segs hne, ?_⟩
+  apply Routing.splitSlash_joinSlash
+  · simpa using hne
+  · simp only [List.all_map, List.all_eq_true]
+    intro s hs'
+    exact noSlash_strOf s (hs s hs')
+
+/-- the strings of the path segments are the path segments of the strings -/
+theorem pathSegsB_strs (onEntity : Bool) : ∀ (segs : List SegSpec) (ts : List Bytes),
+    (pathSegsB onEntity segs ts).map strOf = pathStrs onEntity segs (ts.map strOf)
+  | [], _ => rfl
+  | [s], ts => by
+    cases hk : s.key <;> cases onEntity <;> cases ts <;> simp [pathSegsB, pathStrs, restStrs, hk]
+  | s :: s' :: rest, ts => by
+    have ih := pathSegsB_strs onEntity (s' :: rest)
+    cases hk : s.key with
+    | none =>
+      have := ih ts
+      simp only [pathStrs] at this
+      simp [pathSegsB, pathStrs, restStrs, hk, this]
+    | some ty =>
+      cases ts with
+      | nil => simp [pathSegsB, pathStrs, restStrs, hk]
+      | cons t ts' =>
+        have := ih ts'
+        simp only [pathStrs] at this
+        simp [pathSegsB, pathStrs, restStrs, hk, this]
+
+theorem pathSegsB_ne_nil (onEntity : Bool) (segs : List SegSpec) (ts : List Bytes) (h : segs ≠ []) :
+    pathSegsB onEntity segs ts ≠ [] := by
+  match segs, h with
+  | [s], _ => cases hk : s.key <;> cases onEntity <;> cases ts <;> simp [pathSegsB, hk]
+  | s :: s' :: rest, _ => cases hk : s.key <;> cases ts <;> simp [pathSegsB, hk]
+
+/-- every segment of the path is a resource name or a key text -/
+theorem pathSegsB_mem (onEntity : Bool) : ∀ (segs : List SegSpec) (ts : List Bytes) (x : Bytes),
+    x ∈ pathSegsB onEntity segs ts → (∃ s ∈ segs, x = s.name) ∨ x ∈ ts
+  | [], _, x, h => by simp [pathSegsB] at h
+  | [s], ts, x, h => by
+    cases hk : s.key <;> cases onEntity <;> cases ts <;> simp_all [pathSegsB]
+    rcases h with h | h
+    · exact Or.inl h
+    · exact Or.inr (Or.inl h)
+  | s :: s' :: rest, ts, x, h => by
+    have ih := pathSegsB_mem onEntity (s' :: rest)
+    cases hk : s.key with
+    | none =>
+      simp only [pathSegsB, hk, List.mem_cons] at h
+      rcases h with rfl | h
+      · exact Or.inl ⟨s, List.mem_cons_self .., rfl⟩
+      · rcases ih ts x h with ⟨y, hy, rfl⟩ | hx
+        · exact Or.inl ⟨y, List.mem_cons_of_mem _ hy, rfl⟩
+        · exact Or.inr hx
+    | some ty =>
+      cases ts with
+      | nil =>
+        simp only [pathSegsB, hk, List.mem_singleton] at h
+        exact Or.inl ⟨s, List.mem_cons_self .., h⟩
+      | cons t ts' =>
+        simp only [pathSegsB, hk, List.mem_cons] at h
+        rcases h with rfl | rfl | h
+        · exact Or.inl ⟨s, List.mem_cons_self .., rfl⟩
+        · exact Or.inr (List.mem_cons_self ..)
+        · rcases ih ts' x h with ⟨y, hy, rfl⟩ | hx
+          · exact Or.inl ⟨y, List.mem_cons_of_mem _ hy, rfl⟩
+          · exact Or.inr (List.mem_cons_of_mem _ hx)
+
+/-! ## the wire: what the server has after `DecodeTunnelledQuery` (C14) -/
+
+open Restli.Tunnel Restli.TunnelSpec Restli.Mime in
+/-- the request `newRequest` builds with tunnelling off, as the handler receives it -/
+def plainReq (T : Tunnel.Consts) (path : Bytes) (fq : Bool) (q verb rm : Bytes) (contents : Option Bytes) : Tunnel.Req :=
+  { method := verb, path := path, forceQuery := fq, rawQuery := q,
+    header := baseHdr T rm ++ (if contents.isSome then [((keysOf T).C, [T.ctJson])] else []),
+    body := bodyOf contents, requestURI := urlRequestURI path fq q }
+
+open Restli.Tunnel Restli.TunnelSpec Restli.Mime in
+/-- Whatever the threshold: the request is built, and what the server's `DecodeTunnelledQuery` makes
+of it is the request with tunnelling off (C14: `decode_sent` for the tunnelled case,
+`decode_no_override` for the other). -/
+theorem detunnelled (T : Tunnel.Consts) (g : Good T) (b : Bytes) (hb : TokenBoundary b) (thr : Nat)
+    (path : Bytes) (fq : Bool) (q verb rm : Bytes) (contents : Option Bytes)
+    (hverb : verb ≠ []) (hfresh : BoundaryFresh b q (contents.getD [])) (hne : contents ≠ some []) :
+    ∃ sent, sentRequest T b thr path fq q verb rm contents = .ok sent ∧
+      decodeTunnelledQuery T sent = .ok (plainReq T path fq q verb rm contents) := by
+  cases hT : shouldTunnel thr q with
+  | true =>
+    obtain ⟨sent, orig, h1, h2, h3⟩ := decode_sent T g b hb thr path fq q verb rm contents hT hverb hfresh hne
+    have hp := sent_plain T g b 0 path fq q verb rm contents (by simp [shouldTunnel])
+    rw [hp] at h2
+    injection h2 with e
+    exact ⟨sent, h1, by rw [h3, ← e]; rfl⟩
+  | false =>
+    have hp := sent_plain T g b thr path fq q verb rm contents hT
+    refine ⟨_, hp, ?_⟩
+    have : decodeTunnelledQuery T (plainReq T path fq q verb rm contents) = .ok (plainReq T path fq q verb rm contents) := by
+      apply decode_no_override
+      simp only [plainReq]
+      apply plain_header_no_override T g rm
+      cases contents <;> simp
+    exact this
+
+open Restli.Tunnel Restli.Mime in
+/-- the `X-RestLi-Method` header of that request is the one the client set -/
+theorem plainReq_method_header (T : Tunnel.Consts) (g : Good T) (path : Bytes) (fq : Bool) (q verb rm : Bytes)
+    (contents : Option Bytes) :
+    (plainReq T path fq q verb rm contents).header.get T.hdrRestliMethod = rm := by
+  have hk : canonicalKey T.hdrRestliMethod = (keysOf T).RM := rfl
+  simp only [plainReq, baseHdr_eq T g rm, Hdr.get, hk]
+  have h1 : ((keysOf T).PV == (keysOf T).RM) = false := beq_eq_false_iff_ne.mpr g.pvrm
+  simp [Hdr.find, h1]
+
 /-! ## routing of a request that names its method in the header -/
 
 open Restli.Routing Restli.Routing.Spec in
@@ -238,7 +408,7 @@ open Restli.Routing Restli.Routing.Spec in
 well-formed and whose `X-RestLi-Method` header names the method `m`: `ServeHTTP`/`receive` settle on
 `m` (on a simple resource: on what verb and `action` parameter say, which must be `m`) and hand the
 request to the handler registered for it — `lookupHandler` on the located node. -/
-theorem routeX_named (C : Consts) (hC : Tied C) (V : String → Bool) (roots : List Node) (req : Req) (t : Target)
+theorem routeX_named (C : Routing.Consts) (V : String → Bool) (roots : List Node) (req : Req) (t : Target)
     (hloc : locate roots req.path = some t)
     (hkeys : t.keys.all V = true) (hq : (req.query.all fun kv => V kv.2) = true)
     (m : Method) (hm : m ≠ .unknown)
@@ -281,5 +451,302 @@ theorem routeX_named (C : Consts) (hC : Tied C) (V : String → Bool) (roots : L
         have hk : t.hasKey = false := hnokey hc
         simp only [Bool.false_eq_true, if_false, hk, hsimple hc, finish]
         cases lookupHandler C t.node t.rpath t.keys false m _ _ <;> rfl
+
+/-! ## from the wire to the registered closure -/
+
+open Restli.Routing in
+/-- facts about the regenerated constants (decided for `constsV2` in `Props/C02.lean`) -/
+structure ConstsOk (K : Consts) : Prop where
+  good : Tunnel.Good K.T
+  /-- `MethodNameMapping[m.String()] = m` -/
+  names : ∀ m, m ≠ Method.unknown → nameMapping K.R (strOf (sB (methodName K.R m))) = m
+  namesNe : ∀ m, m ≠ Method.unknown → sB (methodName K.R m) ≠ []
+
+theorem verbBytes_ne_nil (m : Method) : verbBytes m ≠ [] := by
+  cases m <;> decide +kernel
+
+theorem normalisePrefix_noSlash (p : String) (h : p.toList.getLast? ≠ some '/') :
+    Routing.normalisePrefix p = p ++ "/" := by
+  unfold Routing.normalisePrefix
+  by_cases hp : p = ""
+  · subst hp; decide
+  · simp [hp, h]
+
+open Restli.Routing in
+/-- the facts a call's method is routed with, given the texts of its path keys -/
+def factsOf (r : ResSpec) (texts : List Bytes) : Facts :=
+  ⟨r.method.kind, rpathOf r.segs, texts.map strOf,
+   if r.method.kind = .finder then some (strOf r.method.name) else Option.none,
+   if r.method.kind = .action then some (strOf r.method.name) else Option.none⟩
+
+theorem factsMatch_factsOf (r : ResSpec) (texts : List Bytes) : factsMatch r (factsOf r texts) = true := by
+  cases hk : r.method.kind <;> simp [factsMatch, factsOf, hk]
+
+open Restli.Routing in
+/-- the query as `receive` sees it -/
+def stringQuery (q : Bytes) : List (String × String) := (parseQuery q).map (fun e => (strOf e.1, strOf e.2))
+
+open Restli.Routing in
+/-- what the method kind demands of the resource, of the level and of the reserved query parameters —
+each clause is what the generated client produces for that kind (`Props/C02.lean` shows it for the
+client's own output) -/
+structure KindOk (K : Consts) (r : ResSpec) (node : Node) (sq : List (String × String)) : Prop where
+  known : r.method.kind ≠ .unknown
+  /-- entity-level methods carry the resource's own key, resource-level ones do not -/
+  needs : node.isCollection = true → needsEntity r.method.kind = true → hasKeyAt r.method.onEntity r.segs = true
+  forbids : node.isCollection = true → forbidsEntity r.method.kind = true → hasKeyAt r.method.onEntity r.segs = false
+  /-- on a simple resource the method must be the one verb and `action` parameter stand for -/
+  simple : node.isCollection = false →
+    simpleMethod (verbOfBytes (verbBytes r.method.kind)) ((lookupLast K.R.paramAction sq).getD "") r.method.kind = r.method.kind
+  finder : r.method.kind = .finder →
+    (lookupLast K.R.paramFinder sq).getD "" = strOf r.method.name ∧ node.finders.contains (strOf r.method.name) = true
+  action : r.method.kind = .action →
+    (lookupLast K.R.paramAction sq).getD "" = strOf r.method.name ∧
+      node.actions.lookup (strOf r.method.name) = some (hasKeyAt r.method.onEntity r.segs)
+  plain : r.method.kind ≠ .finder → r.method.kind ≠ .action → node.methods.contains r.method.kind = true
+
+open Restli.Routing in
+/-- the request `receive` looks at, for a call's untunnelled request -/
+def clientRoutingReq (K : Consts) (r : ResSpec) (texts : List Bytes) (q : Bytes) : Req :=
+  { verb := verbOfBytes (verbBytes r.method.kind),
+    headers := [(K.R.methodHeader, strOf (sB (methodName K.R r.method.kind)))],
+    path := pathStrs r.method.onEntity r.segs (texts.map strOf),
+    query := stringQuery q, decodes := Method.all, implOk := true }
+
+open Restli.Routing Restli.Tunnel in
+/-- the untunnelled request of a call, below the server's prefix, split at `/`: the resource names
+and key texts; its method header and query as the client wrote them -/
+theorem routingReq_client (K : Consts) (hK : ConstsOk K) (cfg : Cfg) (r : ResSpec) (texts : List Bytes)
+    (hsegs : r.segs ≠ [])
+    (hnames : ∀ s ∈ r.segs, ∀ c ∈ s.name, c ≠ 47) (htexts : ∀ t ∈ texts, ∀ c ∈ t, c ≠ 47)
+    (hpfx : (strOf cfg.pfx).toList.getLast? ≠ some '/') (q : Bytes) (fq : Bool) (body : Option Bytes) :
+    routingReq K cfg (plainReq K.T (cfg.pfx ++ joinPath (pathSegsB r.method.onEntity r.segs texts)) fq q
+      (verbBytes r.method.kind) (sB (methodName K.R r.method.kind)) body) = some (clientRoutingReq K r texts q) := by
+  have hne := pathSegsB_ne_nil r.method.onEntity r.segs texts hsegs
+  have hclean : ∀ s ∈ pathSegsB r.method.onEntity r.segs texts, ∀ c ∈ s, c ≠ 47 := by
+    intro s hs
+    rcases pathSegsB_mem r.method.onEntity r.segs texts s hs with ⟨y, hy, rfl⟩ | hx
+    · exact hnames y hy
+    · exact htexts s hx
+  obtain ⟨rest, hrest, hsplit⟩ := split_joinPath _ hne hclean
+  have hstrip : stripPrefix (normalisePrefix (strOf cfg.pfx)).toList
+      (strOf (cfg.pfx ++ joinPath (pathSegsB r.method.onEntity r.segs texts))).toList = some rest := by
+    rw [normalisePrefix_noSlash _ hpfx, strOf_append]
+    simp only [String.toList_append, strOf_toList (joinPath _), hrest]
+    have : ("/" : String).toList = ['/'] := by decide
+    rw [this]
+    have := stripPrefix_append ((strOf cfg.pfx).toList ++ ['/']) rest
+    simpa using this
+  simp only [routingReq]
+  rw [show (plainReq K.T (cfg.pfx ++ joinPath (pathSegsB r.method.onEntity r.segs texts)) fq q
+    (verbBytes r.method.kind) (sB (methodName K.R r.method.kind)) body).path =
+      cfg.pfx ++ joinPath (pathSegsB r.method.onEntity r.segs texts) from rfl, hstrip]
+  simp only [plainReq_method_header K.T hK.good, hsplit, pathSegsB_strs, stringQuery, clientRoutingReq]
+  rfl
+
+open Restli.Routing in
+/-- **Routing picks the call's method.** `ServeHTTP`/`receive` route the request of a call to the
+handler registered for the call's method on the resource its path names, with the key texts as entity
+keys — for every resource shape, method kind and key text. -/
+theorem routeX_client (K : Consts) (hK : ConstsOk K) (roots : List Node) (r : ResSpec) (node : Node)
+    (hnode : nodeFor roots r.segs = some node)
+    (texts : List Bytes) (hlen : texts.length = (keyTys r.method.onEntity r.segs).length)
+    (htexts : ∀ t ∈ texts, validateRor2Input (strOf t) = true)
+    (q : Bytes) (hqv : ((stringQuery q).all fun kv => validateRor2Input kv.2) = true)
+    (hkind : KindOk K r node (stringQuery q)) :
+    routeX K.R validateRor2Input roots (clientRoutingReq K r texts q) =
+      .routed (factsOf r texts) (hasKeyAt r.method.onEntity r.segs) (hasKeyAt r.method.onEntity r.segs) := by
+  have hloc := locate_pathStrs roots r.method.onEntity r.segs node (texts.map strOf) hnode (by simpa using hlen)
+  have hroute := routeX_named K.R validateRor2Input roots (clientRoutingReq K r texts q)
+    ⟨node, rpathOf r.segs, texts.map strOf, hasKeyAt r.method.onEntity r.segs⟩ hloc
+    (by
+      simp only [List.all_map, List.all_eq_true]
+      intro t ht; exact htexts t ht)
+    hqv r.method.kind hkind.known
+    (by simp [clientRoutingReq, hK.names _ hkind.known])
+    hkind.needs hkind.forbids hkind.simple
+  dsimp only [clientRoutingReq] at hroute ⊢
+  rw [hroute]
+  by_cases hf : r.method.kind = .finder
+  · obtain ⟨h1, h2⟩ := hkind.finder hf
+    have h2' : strOf r.method.name ∈ node.finders := by simpa using h2
+    simp [lookupHandler, factsOf, hf, h1, h2']
+  · by_cases ha : r.method.kind = .action
+    · obtain ⟨h1, h2⟩ := hkind.action ha
+      simp [lookupHandler, factsOf, ha, h1, h2]
+    · have h3 := hkind.plain hf ha
+      have h3' : r.method.kind ∈ node.methods := by simpa using h3
+      simp [lookupHandler, factsOf, hf, ha, h3']
+
+open Restli.Routing Restli.Tunnel in
+/-- **The request reaches the closure registered for the call's method, with the client's own
+bytes.** For every registered resource shape (`nodeFor`), method kind (`KindOk`), texts of the path
+keys and query, context path and tunnelling threshold: whatever the client put on the wire, the
+server de-tunnels it to the untunnelled request (C14), splits its path into exactly the resource
+names and key texts, routes it (`ServeHTTP`, `receive`) to the method the call names — never to
+another one — and runs that method's decoders on the client's key texts, raw query and body. -/
+theorem serverSees_delivered (K : Consts) (hK : ConstsOk K) (env : Env) (roots : List Node) (cfg : Cfg)
+    (r : ResSpec) (node : Node) (hnode : nodeFor roots r.segs = some node)
+    (texts : List Bytes) (hlen : texts.length = (keyTys r.method.onEntity r.segs).length)
+    (hnames : ∀ s ∈ r.segs, ∀ c ∈ s.name, c ≠ 47)
+    (htexts : ∀ t ∈ texts, (∀ c ∈ t, c ≠ 47) ∧ validateRor2Input (strOf t) = true)
+    (q : Bytes) (hqv : ((stringQuery q).all fun kv => validateRor2Input kv.2) = true)
+    (hkind : KindOk K r node (stringQuery q))
+    (hpfx : (strOf cfg.pfx).toList.getLast? ≠ some '/')
+    (fq : Bool) (body : Option Bytes)
+    (hb : TokenBoundary cfg.boundary) (hfresh : TunnelSpec.BoundaryFresh cfg.boundary q (body.getD []))
+    (hbody : body ≠ some []) :
+    ∃ sent, sentRequest K.T cfg.boundary cfg.threshold (cfg.pfx ++ joinPath (pathSegsB r.method.onEntity r.segs texts)) fq q
+        (verbBytes r.method.kind) (sB (methodName K.R r.method.kind)) body = .ok sent ∧
+      serverSees K env roots cfg r sent =
+        afterRouting K env r (factsOf r texts)
+          (plainReq K.T (cfg.pfx ++ joinPath (pathSegsB r.method.onEntity r.segs texts)) fq q
+            (verbBytes r.method.kind) (sB (methodName K.R r.method.kind)) body) := by
+  obtain ⟨sent, hsent, hdec⟩ := detunnelled K.T hK.good cfg.boundary hb cfg.threshold
+    (cfg.pfx ++ joinPath (pathSegsB r.method.onEntity r.segs texts)) fq q (verbBytes r.method.kind)
+    (sB (methodName K.R r.method.kind)) body (verbBytes_ne_nil _) hfresh hbody
+  refine ⟨sent, hsent, ?_⟩
+  have hsegs : r.segs ≠ [] := by
+    intro e; rw [e] at hnode; simp [nodeFor] at hnode
+  have hpath := routingReq_client K hK cfg r texts hsegs hnames (fun t ht => (htexts t ht).1) hpfx q fq body
+  have hroute := routeX_client K hK roots r node hnode texts hlen (fun t ht => (htexts t ht).2) q hqv hkind
+  simp only [serverSees, hdec, hpath, hroute, factsMatch_factsOf, Bool.not_true, Bool.false_eq_true, if_false]
+  by_cases ha : (factsOf r texts).method = .action
+  · simp [ha]
+  · simp [ha]
+
+/-! ## the reserved query parameters, looked up in the client's own query -/
+
+theorem strOf_injective {a b : Bytes} (h : strOf a = strOf b) : a = b := by
+  have := congrArg bytesOf h
+  simpa [bytesOf_strOf] using this
+
+theorem lookupLast_none {α : Type} (k : String) : ∀ (l : List (String × α)), (∀ e ∈ l, e.1 ≠ k) →
+    Routing.lookupLast k l = Option.none
+  | [], _ => rfl
+  | (k', v) :: rest, h => by
+    have h1 := lookupLast_none k rest (fun e he => h e (List.mem_cons_of_mem _ he))
+    have h2 : (k' == k) = false := beq_eq_false_iff_ne.mpr (h (k', v) (List.mem_cons_self ..))
+    simp [Routing.lookupLast, h1, h2]
+
+theorem lookupLast_of_mem {α : Type} (k : String) (v : α) : ∀ (l : List (String × α)), (l.map (·.1)).Nodup →
+    (k, v) ∈ l → Routing.lookupLast k l = some v
+  | [], _, h => by cases h
+  | (k', v') :: rest, hn, h => by
+    simp only [List.map_cons, List.nodup_cons] at hn
+    rcases List.mem_cons.1 h with he | hr
+    · cases he
+      have : Routing.lookupLast k rest = Option.none := by
+        apply lookupLast_none
+        intro e he hek
+        exact hn.1 (List.mem_map.2 ⟨e, he, hek⟩)
+      simp [Routing.lookupLast, this]
+    · have := lookupLast_of_mem k v rest hn.2 hr
+      simp [Routing.lookupLast, this]
+
+/-- the query `receive` sees, in terms of the pairs the client joined -/
+theorem stringQuery_joinQuery (ps : List (Bytes × Bytes)) (h : ∀ e ∈ ps, PairClean e) :
+    stringQuery (joinQuery ps) = (sortByKey ps).map (fun e => (strOf e.1, strOf e.2)) := by
+  rw [stringQuery, parseQuery_joinQuery ps h]
+
+theorem stringQuery_nil : stringQuery [] = [] := by
+  simp [stringQuery, parseQuery, splitOn]
+
+theorem nodup_map_inj {α β : Type} (f : α → β) (hf : ∀ a b, f a = f b → a = b) : ∀ l : List α, l.Nodup → (l.map f).Nodup
+  | [], _ => List.nodup_nil
+  | a :: l, h => by
+    rw [List.nodup_cons] at h
+    simp only [List.map_cons, List.nodup_cons]
+    refine ⟨?_, nodup_map_inj f hf l h.2⟩
+    intro hm
+    obtain ⟨b, hb, hfb⟩ := List.mem_map.1 hm
+    have : b = a := hf _ _ hfb
+    exact h.1 (this ▸ hb)
+
+theorem sq_names_nodup (ps : List (Bytes × Bytes)) (hn : ((sortByKey ps).map (·.1)).Nodup) :
+    (((sortByKey ps).map (fun e => (strOf e.1, strOf e.2))).map (·.1)).Nodup := by
+  rw [List.map_map]
+  have : ((fun (e : String × String) => e.1) ∘ fun (e : Bytes × Bytes) => (strOf e.1, strOf e.2)) =
+      (strOf ∘ fun (e : Bytes × Bytes) => e.1) := rfl
+  rw [this, ← List.map_map]
+  exact nodup_map_inj strOf (fun _ _ h => strOf_injective h) _ hn
+
+/-- a parameter the client wrote is what `receive` finds under its name -/
+theorem lookup_client_pair (ps : List (Bytes × Bytes)) (h : ∀ e ∈ ps, PairClean e)
+    (hn : ((sortByKey ps).map (·.1)).Nodup) (k v : Bytes) (hm : (k, v) ∈ ps) :
+    Routing.lookupLast (strOf k) (stringQuery (joinQuery ps)) = some (strOf v) := by
+  rw [stringQuery_joinQuery ps h]
+  apply lookupLast_of_mem _ _ _ (sq_names_nodup ps hn)
+  exact List.mem_map.2 ⟨(k, v), (mem_sortByKey ps (k, v)).2 hm, rfl⟩
+
+/-- a name the client did not write is absent -/
+theorem lookup_client_absent (ps : List (Bytes × Bytes)) (h : ∀ e ∈ ps, PairClean e) (k : Bytes)
+    (hk : ∀ e ∈ ps, e.1 ≠ k) :
+    Routing.lookupLast (strOf k) (stringQuery (joinQuery ps)) = Option.none := by
+  rw [stringQuery_joinQuery ps h]
+  apply lookupLast_none
+  intro e he hek
+  obtain ⟨x, hx, rfl⟩ := List.mem_map.1 he
+  exact hk x ((mem_sortByKey ps x).1 hx) (strOf_injective hek)
+
+/-! ## the client's own request -/
+
+theorem keyTexts_length (K : Consts) (env : Env) : ∀ (tys : List Ty) (ks : List Value) (ts : List Bytes),
+    keyTexts K env tys ks = some ts → ts.length = tys.length
+  | [], _, ts, h => by simp [keyTexts] at h; subst h; rfl
+  | _ :: _, [], _, h => by simp [keyTexts] at h
+  | ty :: tys, k :: ks, ts, h => by
+    simp only [keyTexts] at h
+    cases h1 : ror2Text K env K.pathEsc ty k with
+    | none => simp [h1] at h
+    | some t =>
+      cases h2 : keyTexts K env tys ks with
+      | none => simp [h1, h2] at h
+      | some ts' =>
+        simp only [h1, h2, Option.some.injEq] at h
+        subst h
+        simp [keyTexts_length K env tys ks ts' h2]
+
+/-- what `clientEncode` produces, in terms of the key texts, the parameter pairs and the body document -/
+theorem clientEncode_eq (K : Consts) (env : Env) (r : ResSpec) (c : Call) (texts : List Bytes)
+    (pairs : Option (List (Bytes × Bytes))) (bodyD : Option Doc)
+    (ht : keyTexts K env (keyTys r.method.onEntity r.segs) c.keys = some texts)
+    (hp : queryPairs K env r c = some pairs) (hb : bodyDoc K env r c = some bodyD) :
+    clientEncode K env r c = some
+      { verb := verbBytes r.method.kind, restliMethod := sB (methodName K.R r.method.kind),
+        root := (r.segs.head?.map (·.name)).getD [], rp := joinPath (pathSegsB r.method.onEntity r.segs texts),
+        query := pairs.map joinQuery, body := bodyD.map renderJson } := by
+  simp [clientEncode, pathFrom, queryOf, ht, hp, hb]
+
+open Restli.Tunnel in
+/-- the closure's decoding of the client's own request, part by part: the key texts, the pairs
+`ParseQueryParams` cuts the client's query into (the sorted pairs the client joined), the body bytes -/
+theorem decodeInvocation_client (K : Consts) (env : Env) (r : ResSpec) (texts : List Bytes)
+    (pairs : Option (List (Bytes × Bytes))) (hclean : ∀ e ∈ pairs.getD [], PairClean e)
+    (path : Bytes) (fq : Bool) (verb rm : Bytes) (body : Option Bytes) :
+    decodeInvocation K env r (factsOf r texts)
+        (plainReq K.T path fq ((pairs.map joinQuery).getD []) verb rm body) =
+      (decodeKeys env (keyTys r.method.onEntity r.segs) texts).bind (fun keys =>
+        (decodeQuery K env r (sortByKey (pairs.getD []))).bind (fun qp =>
+          (decodeBody K env r qp.1 qp.2 (body.getD [])).bind (fun pb => .ok ⟨keys, pb.1, pb.2⟩))) := by
+  have hk : (factsOf r texts).keys.map bytesOf = texts := by
+    simp only [factsOf, List.map_map]
+    induction texts with
+    | nil => rfl
+    | cons t ts ih => simp only [List.map_cons, Function.comp, bytesOf_strOf, ih]
+  have hq : parseQuery ((pairs.map joinQuery).getD []) = sortByKey (pairs.getD []) := by
+    cases pairs with
+    | none => simp [parseQuery, splitOn, sortByKey]
+    | some ps => exact parseQuery_joinQuery ps hclean
+  have hb : bodyBytes (plainReq K.T path fq ((pairs.map joinQuery).getD []) verb rm body).body = body.getD [] := by
+    cases body with
+    | none => rfl
+    | some x =>
+      cases x with
+      | nil => rfl
+      | cons a as => rfl
+  simp only [decodeInvocation, hk, hb]
+  rw [show (plainReq K.T path fq ((pairs.map joinQuery).getD []) verb rm body).rawQuery =
+    (pairs.map joinQuery).getD [] from rfl, hq]
 
 end Restli.E2E
